@@ -268,3 +268,21 @@ Proof.
   unfold key_cmp_before_fix, key_cmp, key_cmp_gen.
   destruct l1 as [|a0 [|a1 [|a2 r1]]]; auto. contradiction L. reflexivity.
 Qed.
+
+(* the defect class exactly: two labels sharing a name.  With two labels of different names the
+   stable sort by name and the order by full label coincide. *)
+Lemma order2_sort_distinct a0 a1 : fst a0 <> fst a1 -> order2 a0 a1 = sort_by_name [a0; a1].
+Proof.
+  intros D. unfold order2, label_ltb, label_cmp. cbn [sort_by_name fold_right insert_by_name].
+  rewrite (c_anti _ bcmp_ok (fst a0) (fst a1)).
+  destruct (bcmp (fst a0) (fst a1)) eqn:E; cbn [CompOpp]; auto.
+  apply (c_eq _ bcmp_ok) in E. contradiction.
+Qed.
+
+Lemma cmp_before_fix_same_when_names_differ n1 n2 a0 a1 b0 b1 :
+  fst a0 <> fst a1 -> fst b0 <> fst b1 ->
+  key_cmp_before_fix (n1, [a0; a1]) (n2, [b0; b1]) = key_cmp (n1, [a0; a1]) (n2, [b0; b1]).
+Proof.
+  intros Da Db. unfold key_cmp_before_fix, key_cmp, key_cmp_gen. cbn [lab nth]. unfold sort_small.
+  rewrite <- !order2_sort_distinct by assumption. reflexivity.
+Qed.
